@@ -570,9 +570,7 @@ func TestVerif_C17_UDP(t *testing.T) {
 			tap.onPayload = func(ev *mkFrameEv, payload []byte) {
 				if ev.Write && ev.Local == exit.ID() && ev.Type == protocol.FrameUDPOpenAck {
 					once.Do(func() {
-						if c := exit.peerMgr.GetPeer(ev.Remote); c != nil {
-							c.Close()
-						}
+						mkKillLinkFromTap(exit, ev.Remote)
 					})
 				}
 			}
